@@ -226,8 +226,8 @@ class ArfProp(Prop):
         for which in (0, 1, 2):
             for st in helper.streams(which, maxlen):
                 comps = list(helper.compositions(len(st)))
-                for size in ((3, 4) if tier == "quick" else (2, 3, 4, 8)):
-                    for parts in (comps if len(comps) <= 4 or tier == "thorough" else comps[::2]):
+                for size in ((3, 4) if tier == "quick" else (3, 4, 8)):
+                    for parts in (comps if len(comps) <= 4 or (tier == "thorough" and not self.with_cancel) else comps[::2]):
                         base = [(0, k, 0) for k in parts]
                         m = len(base) + 1
                         for mask in range(1 << m):
